@@ -17,7 +17,7 @@ def _norm(e):
     return e
 
 
-def guard_set(prog, f, bb):
+def guard_set(prog, f, bb, _depth=0):
     """sorted list of condition strings whose edge dominates block bb in f"""
     out = set()
     if bb not in f.reachable(0):
@@ -28,7 +28,22 @@ def guard_set(prog, f, bb):
         t = f.blocks[b]['t']
         ex = _norm(vexpr(f, {'cp': p}, depth=20)) if p is not None else '?'
         if re.match(r'^[01]$', ex) or ex.startswith('phi(0|') or ex in ('1', '0'):
-            continue   # cfg!(debug_assertions) style constants
+            # a flag that is only ever assigned constants: cfg!(debug_assertions), or the matches!(..) idiom
+            # (`flag = true` in the matching arm, `flag = false` elsewhere): the conditions of the single
+            # assigning block hold wherever the corresponding edge dominates
+            if p is not None and is_bare(p) and _depth < 4:
+                ones, zeros = [], []
+                for d in f.defs_of(p['l']):
+                    v = const_int(d[3]['a']) if d[0] == 'assign' and d[3]['k'] == 'use' else None
+                    if v not in (0, 1):
+                        ones = zeros = None
+                        break
+                    (ones if v == 1 else zeros).append(d[1])
+                if ones is not None:
+                    src = ones if f.edge_dominates(b, ts, bb) else (zeros if f.edge_dominates(b, fs, bb) else None)
+                    if src is not None and len(src) == 1 and src[0] != bb:
+                        out.update(g for g in guard_set(prog, f, src[0], _depth + 1) if g != '<unreachable>')
+            continue
         if f.edge_dominates(b, ts, bb):
             out.add(ex)
         elif f.edge_dominates(b, fs, bb):
@@ -93,7 +108,8 @@ def rule_sites(prog, scope):
                 out.append(('%s|%s::%s|#%d' % (f.path, kind, a['rv']['v'], n), f, a['bb'], a['span']))
         # predicates (closures / functions returning bool, e.g. the conditions given to filter / any / find): every way of
         # producing the result, with its own guards, is a site of its own; the value is part of the key
-        if (f.kind == 'closure' and f.local_ty(0) == 'bool') or (f.raw.get('output') == 'bool' and f.kind != 'closure'):
+        all_ret = getattr(scope, 'all_returns', False) and f.local_ty(0) not in ('()', '!')
+        if (f.kind == 'closure' and f.local_ty(0) == 'bool') or (f.raw.get('output') == 'bool' and f.kind != 'closure') or all_ret:
             defs = []
             for d in f.defs_of(0):
                 if d[0] == 'assign' and not f.blocks[d[1]].get('cleanup'):
@@ -107,10 +123,13 @@ def rule_sites(prog, scope):
                 n = cnt.get(k, 0)
                 cnt[k] = n + 1
                 out.append(('%s|returns %s|#%d' % (f.path, val[:160], n), f, bbv, f.span))
-        calls = [c for c in f.calls() if (c.f.get('res') or '') in names and c.f.get('res') != f.path and not f.blocks[c.bb].get('cleanup')]
+        extra = getattr(scope, 'extra_calls', ())
+        calls = [c for c in f.calls() if (((c.f.get('res') or '') in names and c.f.get('res') != f.path) or c.name() in extra) and not f.blocks[c.bb].get('cleanup')]
         calls.sort(key=lambda c: (c.span.cline, c.span.line, c.bb))
         for c in calls:
-            nm = re.sub(r'::<.*?>', '', c.f['res']).rsplit('::', 1)[-1]
+            nm = re.sub(r'::<.*?>', '', c.f.get('res') or c.callee or '?').rsplit('::', 1)[-1]
+            if c.name() in extra:
+                nm = '%s(%s)' % (nm, ','.join(_norm(vexpr(f, a, depth=20))[:80] for a in c.args))
             targ = ''
             ts = [t for t in c.targs if 'slicec::grammar' in t]
             if ts:
